@@ -19,6 +19,9 @@ type Segment struct {
 	// header (mode 0111 + designator) is emitted before this segment.
 	// Use -1 for none.
 	ECI int
+	// FNC1: the symbol carries GS1 data: the mode indicator 0101 (FNC1 in first position) is
+	// emitted in front of this segment's mode indicator. Meaningful on the first segment only.
+	FNC1 bool
 }
 
 const alnumChars = "0123456789ABCDEFGHIJKLMNOPQRSTUVWXYZ $%*+-./:"
@@ -117,6 +120,9 @@ func appendSegment(w *bitWriter, s Segment, v int) error {
 		default:
 			return fmt.Errorf("qr: ECI assignment number %d out of range", s.ECI)
 		}
+	}
+	if s.FNC1 {
+		w.put(5, 4) // FNC1 in first position (0101); after the ECI header when both are present
 	}
 	count, err := charCount(s)
 	if err != nil {
